@@ -17,7 +17,13 @@ open Girc Girc.Model Girc.Spec
 theorem pong_wire (tok : Bytes) (h : fieldOK tok = true) :
     ∃ e', parseEvent (eventBytes { command := cPONG, params := [tok] }) = some e' ∧
       e'.command = cPONG ∧ e'.params = [tok] := by
-  sorry
+  have hwf : WFEvent { command := cPONG, params := [tok] } = true := by
+    have h1 : wfCmd cPONG = true := by decide
+    have h2 : 2 ≤ (rawBytes { command := cPONG, params := [tok] }).length := by
+      simp [rawBytes, tagsWrite, tagsBytes, cPONG]
+    simp only [WFEvent, h1, wfParams, h, Option.all_none, Bool.and_self, h2, decide_true]
+  obtain ⟨e', hp, hc, hps, _⟩ := Roundtrip.roundtrip_event _ hwf
+  exact ⟨e', hp, hc, hps⟩
 
 def isNickErr (c : Bytes) : Bool := c = c433 || c = c436 || c = c437
 
@@ -29,23 +35,114 @@ def rejectedNick (cfg : Cfg) (st : St) (e : Event) : Bytes :=
 
 def nickEvent (n : Bytes) : Event := { command := cNICK, params := [n] }
 
+theorem decodeCTCP_none_of_cmd (e : Event) (h1 : e.command ≠ PRIVMSG) (h2 : e.command ≠ NOTICE) :
+    decodeCTCP e = none := by
+  unfold decodeCTCP
+  split
+  · simp [h1, h2]
+  · rfl
+
+theorem isEcho_false_of_cmd (cfg : Cfg) (st : St) (e : Event) (h1 : e.command ≠ PRIVMSG) (h2 : e.command ≠ NOTICE) :
+    isEcho cfg st e = false := by
+  simp [isEcho, h1, h2]
+
+/-- The state the command handlers see. -/
+def tagged (cfg : Cfg) (cs : CState) (e : Event) : CState :=
+  if cfg.disableTracking then cs else { cs with st := handleTags cs.st e }
+
+theorem handleEvent_of_cmd (cfg : Cfg) (cs : CState) (e : Event) (time idle : Bytes)
+    (h1 : e.command ≠ PRIVMSG) (h2 : e.command ≠ NOTICE) (cs' : CState) (outs : List Out)
+    (h : handleCommand cfg (tagged cfg cs e) e = .ok (cs', outs)) :
+    handleEvent cfg cs e time idle = .ok (cs', outs) := by
+  unfold handleEvent
+  simp only [isEcho_false_of_cmd cfg cs.st e h1 h2, decodeCTCP_none_of_cmd e h1 h2]
+  unfold tagged at h
+  simp [h, bind, Except.bind]
+
+theorem handleTags_nick (st : St) (e : Event) : (handleTags st e).nick = st.nick := by
+  unfold handleTags
+  split
+  · split
+    · rfl
+    · split
+      · unfold updUser; split <;> rfl
+      · rfl
+  · rfl
+
+theorem getNick_handleTags (cfg : Cfg) (st : St) (e : Event) : getNick cfg (handleTags st e) = getNick cfg st := by
+  simp [getNick, handleTags_nick]
+
+theorem rejectedNick_tagged (cfg : Cfg) (cs : CState) (e : Event) :
+    rejectedNick cfg (tagged cfg cs e).st e = rejectedNick cfg cs.st e := by
+  unfold tagged
+  split
+  · rfl
+  · simp only [rejectedNick, getNick_handleTags]
+
+theorem nickCollision_none (cfg : Cfg) (st : St) (e : Event) (hcb : cfg.nickCollide = .none) :
+    nickCollision cfg st e = [Out.send (nickEvent (rejectedNick cfg st e ++ [0x5F]))] := by
+  simp only [nickCollision, hcb, rejectedNick, nickEvent]
+  generalize e.params = ps
+  rcases ps with _ | ⟨a, _ | ⟨b, t⟩⟩ <;> rfl
+
+theorem handleCommand_nickErr (cfg : Cfg) (cs : CState) (e : Event) (hc : isNickErr e.command = true) :
+    handleCommand cfg cs e = .ok (cs, nickCollision cfg cs.st e) := by
+  have h1 : e.command ≠ cPING := by
+    intro h; rw [h] at hc; revert hc; decide
+  have h2 : e.command ≠ c001 := by
+    intro h; rw [h] at hc; revert hc; decide
+  unfold isNickErr at hc
+  unfold handleCommand
+  simp only [h1, h2, hc, if_false, if_true]
+
+theorem nickErr_not_msg (c : Bytes) (hc : isNickErr c = true) : c ≠ PRIVMSG ∧ c ≠ NOTICE := by
+  constructor <;> (intro h; rw [h] at hc; revert hc; decide)
+
 /-- Exactly one alternative per numeric, whatever else the line carries, before or after
     registration, with tracking on or off: by default the rejected nick with one more '_'. -/
 theorem collision_default (cfg : Cfg) (cs : CState) (e : Event) (time idle : Bytes)
     (hc : isNickErr e.command = true) (hcb : cfg.nickCollide = .none) :
     ∃ cs', handleEvent cfg cs e time idle = .ok (cs', [Out.send (nickEvent (rejectedNick cfg cs.st e ++ [0x5F]))]) := by
-  sorry
+  obtain ⟨h1, h2⟩ := nickErr_not_msg _ hc
+  refine ⟨tagged cfg cs e, handleEvent_of_cmd cfg cs e time idle h1 h2 _ _ ?_⟩
+  rw [handleCommand_nickErr cfg _ e hc, ← rejectedNick_tagged, nickCollision_none _ _ _ hcb]
 
 /-- With a callback: its value, and nothing if it returns the empty string. -/
 theorem collision_callback (cfg : Cfg) (cs : CState) (e : Event) (time idle : Bytes) (n : Bytes)
     (hc : isNickErr e.command = true) (hcb : cfg.nickCollide = .fixed n) :
     ∃ cs', handleEvent cfg cs e time idle = .ok (cs', if n.isEmpty then [] else [Out.send (nickEvent n)]) := by
-  sorry
+  obtain ⟨h1, h2⟩ := nickErr_not_msg _ hc
+  refine ⟨tagged cfg cs e, handleEvent_of_cmd cfg cs e time idle h1 h2 _ _ ?_⟩
+  rw [handleCommand_nickErr cfg _ e hc]
+  simp only [nickCollision, hcb, nickEvent]
 
 /-- The k-th proposal when the server rejects every proposal in turn. -/
 def proposal (nick : Bytes) : Nat → Bytes
   | 0 => nick
   | k + 1 => proposal nick k ++ [0x5F]
+
+theorem isValidNick_snoc (s : Bytes) (h : isValidNick s = true) : isValidNick (s ++ [0x5F]) = true := by
+  cases s with
+  | nil => cases h
+  | cons c rest =>
+    have h5 : nickRest 0x5F = true := by decide
+    simp only [isValidNick, Bool.and_eq_true] at h
+    simp only [List.cons_append, isValidNick, List.all_append, List.all_cons, List.all_nil, h.1, h.2, h5,
+      Bool.and_self]
+
+theorem proposal_valid (nick : Bytes) (hn : isValidNick nick = true) (k : Nat) :
+    isValidNick (proposal nick k) = true := by
+  induction k with
+  | zero => exact hn
+  | succ k ih => exact isValidNick_snoc _ ih
+
+theorem proposal_eq (nick : Bytes) (k : Nat) : proposal nick k = nick ++ List.replicate k 0x5F := by
+  induction k with
+  | zero => simp [proposal]
+  | succ k ih => simp [proposal, ih, List.replicate_succ']
+
+theorem proposal_length (nick : Bytes) (k : Nat) : (proposal nick k).length = nick.length + k := by
+  simp [proposal_eq]
 
 /-- Successive collisions: nick_, nick__, … — each numeric names the previous proposal, the answer
     appends one more '_'; all proposals are valid nicks and pairwise distinct, so a rejected
@@ -57,9 +154,81 @@ theorem collision_progression (nick : Bytes) (hn : isValidNick nick = true) :
     (∀ (cfg : Cfg) (st : St) (k : Nat) (cl reason : Bytes), cfg.nickCollide = .none →
       nickCollision cfg st { command := c433, params := [cl, proposal nick k, reason] } =
         [Out.send (nickEvent (proposal nick (k + 1)))]) := by
-  sorry
+  refine ⟨proposal_valid nick hn, proposal_eq nick, ?_, ?_⟩
+  · intro i j hij h
+    have := congrArg List.length h
+    simp only [proposal_length] at this
+    omega
+  · intro cfg st k cl reason hcb
+    simp only [nickCollision, hcb, proposal_valid nick hn k, if_true, nickEvent, proposal]
 
 /-! ## C14 reply discipline -/
+
+theorem ctcpCall_cases (cfg : Cfg) (ev : CTCPEvent) (time idle : Bytes) :
+    ctcpCall cfg ev time idle = [] ∨
+    (ev.reply = false ∧ ev.command ≠ tACTION ∧ ∃ src typ msg, ev.source = some src ∧ typ ≠ [] ∧
+      ctcpCall cfg ev time idle = [ctcpReply (fold src.name) typ msg]) := by
+  unfold ctcpCall
+  simp only
+  split
+  · split
+    · exact .inl rfl
+    · rename_i hk ha
+      split
+      · rename_i src hsrc
+        split
+        · rename_i hr
+          simp only [Bool.and_eq_true, Bool.not_eq_eq_eq_not, Bool.not_true] at hr
+          exact .inr ⟨hr.1, ha, src, tERRMSG, sUnknownCtcp, hsrc, by decide, rfl⟩
+        · exact .inl rfl
+      · exact .inl rfl
+  · rename_i hk
+    have ha : ev.command ≠ tACTION := by
+      intro h; rw [h] at hk; revert hk; decide
+    split
+    · exact .inl rfl
+    · rename_i hr
+      simp only [Bool.not_eq_true] at hr
+      split
+      · exact .inl rfl
+      · rename_i src hsrc
+        split
+        · exact .inr ⟨hr, ha, src, _, _, hsrc, by decide, rfl⟩
+        split
+        · exact .inr ⟨hr, ha, src, _, _, hsrc, by decide, rfl⟩
+        split
+        · exact .inr ⟨hr, ha, src, _, _, hsrc, by decide, rfl⟩
+        split
+        · exact .inr ⟨hr, ha, src, _, _, hsrc, by decide, rfl⟩
+        split
+        · exact .inr ⟨hr, ha, src, _, _, hsrc, by decide, rfl⟩
+        · exact .inr ⟨hr, ha, src, _, _, hsrc, by decide, rfl⟩
+
+theorem ctcpCall_reply (cfg : Cfg) (ev : CTCPEvent) (time idle : Bytes) (h : ev.reply = true) :
+    ctcpCall cfg ev time idle = [] := by
+  rcases ctcpCall_cases cfg ev time idle with h' | ⟨h', _⟩
+  · exact h'
+  · rw [h] at h'; cases h'
+
+theorem decodeCTCP_some (e : Event) (ev : CTCPEvent) (h : decodeCTCP e = some ev) :
+    ev.reply = (e.command == NOTICE) ∧ ev.source = e.source := by
+  unfold decodeCTCP at h
+  split at h
+  · split at h
+    · cases h
+    split at h
+    · cases h
+    split at h
+    · cases h
+    simp only at h
+    split at h
+    · split at h
+      · cases h; exact ⟨rfl, rfl⟩
+      · cases h
+    · split at h
+      · cases h; exact ⟨rfl, rfl⟩
+      · cases h
+  · cases h
 
 /-- Every automatic answer is a NOTICE to the (folded) requester, produced only for a request
     (not a reply) that carries a source, and never for ACTION. -/
@@ -68,13 +237,28 @@ theorem reply_discipline (cfg : Cfg) (ev : CTCPEvent) (time idle : Bytes) :
       ev.reply = false ∧ ev.command ≠ tACTION ∧
       ∃ src typ msg, ev.source = some src ∧ typ ≠ [] ∧
         o = Out.send { command := NOTICE, params := [fold src.name, encodeCTCPRaw typ msg] } := by
-  sorry
+  intro o ho
+  rcases ctcpCall_cases cfg ev time idle with h | ⟨hr, ha, src, typ, msg, hsrc, ht, h⟩
+  · rw [h] at ho; cases ho
+  · rw [h] at ho
+    simp only [List.mem_singleton] at ho
+    exact ⟨hr, ha, src, typ, msg, hsrc, ht, ho⟩
 
 /-- At the level of received events: CTCP answers come only from PRIVMSG events. -/
 theorem replies_only_to_privmsg (cfg : Cfg) (e : Event) (ev : CTCPEvent) (time idle : Bytes)
     (hd : decodeCTCP e = some ev) (hne : ctcpCall cfg ev time idle ≠ []) :
     e.command = PRIVMSG ∧ e.source.isSome := by
-  sorry
+  rcases ctcpCall_cases cfg ev time idle with h | ⟨hr, ha, src, typ, msg, hsrc, ht, h⟩
+  · exact absurd h hne
+  · obtain ⟨h1, h2⟩ := decodeCTCP_some e ev hd
+    have hn : e.command ≠ NOTICE := by
+      intro hc; rw [hc] at h1; rw [hr] at h1; revert h1; decide
+    constructor
+    · false_or_by_contra
+      rename_i hp
+      rw [decodeCTCP_none_of_cmd e hp hn] at hd
+      cases hd
+    · rw [← h2, hsrc]; rfl
 
 /-- No reply loop: whatever a client answers automatically, received by ANY client (any
     configuration, as a NOTICE from anyone), triggers no automatic answer. -/
@@ -83,32 +267,107 @@ theorem no_reply_loop (cfg cfg' : Cfg) (ev : CTCPEvent) (time idle time' idle' :
       ∀ (src' : Option Source) (tags' : Option Tags) (ev' : CTCPEvent),
         decodeCTCP { reply with source := src', tags := tags' } = some ev' →
         ctcpCall cfg' ev' time' idle' = [] := by
-  sorry
+  intro o ho reply hrep src' tags' ev' hd
+  obtain ⟨_, _, src, typ, msg, _, _, ho'⟩ := reply_discipline cfg ev time idle o ho
+  rw [ho'] at hrep
+  cases hrep
+  obtain ⟨h1, _⟩ := decodeCTCP_some _ ev' hd
+  apply ctcpCall_reply
+  rw [h1]
+  show (NOTICE == NOTICE) = true
+  decide
 
 /-! ## C09 protocol -/
 
 def isSaslCmd (c : Bytes) : Bool :=
   c = cAUTHENTICATE || c = c902 || c = c903 || c = c904 || c = c905 || c = c906 || c = c907 || c = c908
 
+theorem isSaslCmd_cases {c : Bytes} (h : isSaslCmd c = true) :
+    c = cAUTHENTICATE ∨ c = c902 ∨ c = c903 ∨ c = c904 ∨ c = c905 ∨ c = c906 ∨ c = c907 ∨ c = c908 := by
+  simpa [isSaslCmd, or_assoc] using h
+
+theorem handleCommand_saslErr (cfg : Cfg) (cs : CState) (e : Event) (ht : cfg.disableTracking = false)
+    (hc : e.command = c902 ∨ e.command = c904 ∨ e.command = c905 ∨ e.command = c906 ∨ e.command = c908) :
+    handleCommand cfg cs e = .ok (cs, handleSASLError cfg e) := by
+  unfold handleCommand
+  rcases hc with h | h | h | h | h <;> simp only [h, ht] <;> simp (decide := true)
+
+theorem handleCommand_sasl (cfg : Cfg) (cs : CState) (e : Event) (ht : cfg.disableTracking = false)
+    (hc : e.command = cAUTHENTICATE ∨ e.command = c903) :
+    handleCommand cfg cs e = .ok (handleSASL cfg cs e) := by
+  unfold handleCommand
+  rcases hc with h | h <;> simp only [h, ht] <;> simp (decide := true)
+
+theorem handleCommand_907 (cfg : Cfg) (cs : CState) (e : Event) (hc : e.command = c907) :
+    handleCommand cfg cs e = .ok (cs, []) := by
+  unfold handleCommand
+  simp only [hc]
+  simp (decide := true)
+
+theorem handleCommand_sasl_notrack (cfg : Cfg) (cs : CState) (e : Event) (ht : cfg.disableTracking = true)
+    (hc : isSaslCmd e.command = true) :
+    handleCommand cfg cs e = .ok (cs, []) := by
+  unfold handleCommand
+  rcases isSaslCmd_cases hc with h | h | h | h | h | h | h | h <;> simp only [h, ht] <;> simp (decide := true)
+
 /-- Once authentication is in progress, CAP END is written only for the success numeric. -/
 theorem sasl_end_only_on_success (cfg : Cfg) (cs : CState) (e : Event) (m : SaslCfg) (cs' : CState) (outs : List Out)
     (hs : cfg.sasl = some m) (hc : isSaslCmd e.command = true)
     (h : handleCommand cfg cs e = .ok (cs', outs)) (hend : Out.write capEnd ∈ outs) : e.command = c903 := by
-  sorry
+  cases ht : cfg.disableTracking
+  · rcases isSaslCmd_cases hc with hc | hc | hc | hc | hc | hc | hc | hc
+    · rw [handleCommand_sasl cfg cs e ht (.inl hc)] at h
+      have h1 : ¬ (cAUTHENTICATE = c903) := by decide
+      have h2 : ¬ (cAUTHENTICATE = c907) := by decide
+      exfalso
+      cases hg : (m.encode cs.saslCalls e.params).isEmpty <;>
+        simp only [handleSASL, hc, hs, h1, h2, Bool.or_self, decide_false, hg, Except.ok.injEq] at h <;>
+        obtain ⟨_, rfl⟩ := h
+      · simp only [List.mem_map] at hend
+        obtain ⟨c, _, hc⟩ := hend
+        have : cAUTHENTICATE = cCAP :=
+          congrArg (fun o => match o with | Out.write e => e.command | _ => []) hc
+        exact absurd this (by decide)
+      · simp at hend
+    · rw [handleCommand_saslErr cfg cs e ht (by simp [hc])] at h
+      cases h
+      simp [handleSASLError, hs] at hend
+    · exact hc
+    · rw [handleCommand_saslErr cfg cs e ht (by simp [hc])] at h
+      cases h
+      simp [handleSASLError, hs] at hend
+    · rw [handleCommand_saslErr cfg cs e ht (by simp [hc])] at h
+      cases h
+      simp [handleSASLError, hs] at hend
+    · rw [handleCommand_saslErr cfg cs e ht (by simp [hc])] at h
+      cases h
+      simp [handleSASLError, hs] at hend
+    · rw [handleCommand_907 cfg cs e hc] at h
+      cases h; cases hend
+    · rw [handleCommand_saslErr cfg cs e ht (by simp [hc])] at h
+      cases h
+      simp [handleSASLError, hs] at hend
+  · rw [handleCommand_sasl_notrack cfg cs e ht hc] at h
+    cases h; cases hend
 
 /-- Any SASL failure numeric injects a local ERROR and writes nothing. -/
 theorem sasl_failure_injects_error (cfg : Cfg) (cs : CState) (e : Event) (m : SaslCfg)
     (hs : cfg.sasl = some m) (ht : cfg.disableTracking = false)
     (hc : e.command = c902 ∨ e.command = c904 ∨ e.command = c905 ∨ e.command = c906 ∨ e.command = c908) :
     handleCommand cfg cs e = .ok (cs, [Out.inject (errorEvent (sClosing ++ e.last))]) := by
-  sorry
+  rw [handleCommand_saslErr cfg cs e ht hc]
+  simp [handleSASLError, hs]
 
 /-- A mechanism that gives up (empty response) injects a local ERROR and writes nothing. -/
 theorem sasl_giveup_injects_error (cfg : Cfg) (cs : CState) (e : Event) (m : SaslCfg)
     (hs : cfg.sasl = some m) (ht : cfg.disableTracking = false) (hc : e.command = cAUTHENTICATE)
     (hg : m.encode cs.saslCalls e.params = []) :
     ∃ cs', handleCommand cfg cs e = .ok (cs', [Out.inject (errorEvent (sClosingSasl ++ m.method ++ sFailed ++ e.last))]) := by
-  sorry
+  rw [handleCommand_sasl cfg cs e ht (.inl hc)]
+  have h1 : ¬ (cAUTHENTICATE = c903) := by decide
+  have h2 : ¬ (cAUTHENTICATE = c907) := by decide
+  simp only [handleSASL, hc, hs, h1, h2, Bool.or_self, decide_false, hg]
+  exact ⟨_, rfl⟩
 
 /-- Otherwise the response goes out as the chunk sequence of `saslChunks` (see `chunks_exact`). -/
 theorem sasl_response_chunked (cfg : Cfg) (cs : CState) (e : Event) (m : SaslCfg)
@@ -116,7 +375,33 @@ theorem sasl_response_chunked (cfg : Cfg) (cs : CState) (e : Event) (m : SaslCfg
     (hg : m.encode cs.saslCalls e.params ≠ []) :
     ∃ cs', handleCommand cfg cs e = .ok (cs',
       (saslChunks (m.encode cs.saslCalls e.params)).map fun c => Out.write { command := cAUTHENTICATE, params := [c] }) := by
-  sorry
+  rw [handleCommand_sasl cfg cs e ht (.inl hc)]
+  have h1 : ¬ (cAUTHENTICATE = c903) := by decide
+  have h2 : ¬ (cAUTHENTICATE = c907) := by decide
+  have h3 : (m.encode cs.saslCalls e.params).isEmpty = false := by
+    simpa using hg
+  simp only [handleSASL, hc, hs, h1, h2, Bool.or_self, decide_false, h3]
+  exact ⟨_, rfl⟩
+
+theorem handleCommand_error (cfg : Cfg) (cs : CState) (e : Event) (hc : e.command = cERROR) :
+    handleCommand cfg cs e = .ok (cs, []) := by
+  unfold handleCommand
+  simp only [hc]
+  simp (decide := true)
+
+theorem saslErr_cmd_ne {c : Bytes} (hc : c = c902 ∨ c = c904 ∨ c = c905 ∨ c = c906 ∨ c = c908) :
+    c ≠ PRIVMSG ∧ c ≠ NOTICE ∧ c ≠ cERROR := by
+  rcases hc with h | h | h | h | h <;> subst h <;> decide
+
+theorem stepEvent_of (cfg : Cfg) (r : Run) (e : Event) (cs' : CState) (outs : List Out)
+    (h : handleEvent cfg r.cs e [] [] = .ok (cs', outs)) :
+    stepEvent cfg r e = .ok
+      (if e.command = cERROR && (applyOuts { r with cs := cs' } outs).1.ended = .running
+        then { (applyOuts { r with cs := cs' } outs).1 with ended := .errEvent e.last }
+        else (applyOuts { r with cs := cs' } outs).1,
+       (applyOuts { r with cs := cs' } outs).2) := by
+  unfold stepEvent
+  simp [h, bind, Except.bind]
 
 /-- The injected ERROR ends the connection with `ErrEvent` carrying its text: a failure line makes
     `Connect` return an error instead of registering unauthenticated. -/
@@ -125,13 +410,34 @@ theorem sasl_failure_ends_connection (cfg : Cfg) (r : Run) (line : Bytes) (e : E
     (hs : cfg.sasl = some m) (ht : cfg.disableTracking = false)
     (hc : e.command = c902 ∨ e.command = c904 ∨ e.command = c905 ∨ e.command = c906 ∨ e.command = c908) :
     ∃ r', stepLine cfg r line = .ok r' ∧ r'.ended = .errEvent (sClosing ++ e.last) ∧ r'.written = r.written := by
-  sorry
+  obtain ⟨h1, h2, h3⟩ := saslErr_cmd_ne hc
+  have hE1 := stepEvent_of cfg r e _ _
+    (handleEvent_of_cmd cfg r.cs e [] [] h1 h2 _ _ (sasl_failure_injects_error cfg _ e m hs ht hc))
+  simp only [applyOuts, h3, decide_false, Bool.false_and, Bool.false_eq_true, if_false, hr] at hE1
+  have hE2 := stepEvent_of cfg { r with cs := tagged cfg r.cs e } (errorEvent (sClosing ++ e.last)) _ _
+    (handleEvent_of_cmd cfg _ _ [] [] (by show cERROR ≠ PRIVMSG; decide) (by show cERROR ≠ NOTICE; decide) _ _
+      (handleCommand_error cfg _ _ rfl))
+  have hl : (errorEvent (sClosing ++ e.last)).last = sClosing ++ e.last := rfl
+  have hcmd : (errorEvent (sClosing ++ e.last)).command = cERROR := rfl
+  simp only [applyOuts, hr, hl, hcmd, decide_true, Bool.and_self, if_true] at hE2
+  have hL : stepLine cfg r line = .ok
+      { cs := tagged cfg (tagged cfg r.cs e) (errorEvent (sClosing ++ e.last)), written := r.written,
+        ended := Ended.errEvent (sClosing ++ e.last) } := by
+    unfold stepLine
+    simp only [hr, hp, ne_eq, not_true_eq_false, if_false]
+    unfold stepAll
+    simp only [hr, ne_eq, not_true_eq_false, if_false, hE1, bind, Except.bind, List.nil_append]
+    unfold stepAll
+    simp only [ne_eq, not_true_eq_false, if_false, hE2, bind, Except.bind, List.nil_append]
+    unfold stepAll
+    rfl
+  exact ⟨_, hL, rfl, rfl⟩
 
 /-- Non-interference of the logs in the secret: for a sensitive event nothing derived from the
     parameters reaches either writer, on the normal and on the dropped-event path. -/
 theorem no_secret_logged (e : Event) (ps : List Bytes) (dropped echo : Bool) :
     debugLine true dropped e = debugLine true dropped { e with params := ps } ∧
     outLine true echo e = none := by
-  sorry
+  simp [debugLine, outLine]
 
 end Girc.Proofs.ProtocolA
